@@ -678,13 +678,24 @@ func (g *gen) serErrorCases() {
 	g.add(joinT("CSer", vx.List(e[0].sops), resBytesT(out, err, panicked)), map[string]any{"what": "ser-error-sticky"}, "sererr|sticky", true)
 }
 
-func (g *gen) streamPair(o wop, kinds []string) {
+// streamPair: the write helper into a ByteBuffer (bytes compared with the model), then its read helper on what was
+// written. atEnd = the helper's write is the last one of the stream and the reader sees nothing behind it: no sentinel
+// byte and no tail, so a helper that leaves part of its output to a later write (a skipped placeholder, a deferred
+// flush) or a reader that needs one byte too many shows; otherwise a sentinel makes the final write position visible
+// and a tail must stay unread.
+func (g *gen) streamPair(o wop, kinds []string) { g.streamPairAt(o, kinds, false) }
+
+func (g *gen) streamPairAt(o wop, kinds []string, atEnd bool) {
 	r := g.r
 	pre := rbytes(r, r.Intn(4))
-	out, err, panicked := runWrite(pre, o)
-	g.add(joinT("CWrite", bytesT(pre), o.term, resBytesT(out, err, panicked)), map[string]any{"what": "write", "op": o.term, "pre": hexs(pre)},
-		"write|"+o.kind+"|"+classify(err), true)
-	g.st.Count("write." + o.kind)
+	out, err, panicked := runWrite(pre, o, !atEnd)
+	ctor, what := "CWrite", "write"
+	if atEnd {
+		ctor, what = "CWriteEnd", "write-at-end"
+	}
+	g.add(joinT(ctor, bytesT(pre), o.term, resBytesT(out, err, panicked)), map[string]any{"what": what, "op": o.term, "pre": hexs(pre)},
+		what+"|"+o.kind+"|"+classify(err), true)
+	g.st.Count(what + "." + o.kind)
 	if panicked {
 		g.fail(map[string]any{"sig": "write-panic", "op": o.term})
 		return
@@ -693,8 +704,17 @@ func (g *gen) streamPair(o wop, kinds []string) {
 		g.st.Count("write.err")
 		return
 	}
-	written := out[len(pre) : len(out)-1] // without the sentinel
-	tail := rbytes(r, r.Intn(4))
+	var written, tail []byte
+	if atEnd {
+		if len(out) < len(pre) { // the stream lost bytes that were there before the helper ran
+			g.fail(map[string]any{"sig": "stream-write-truncates", "write": o.term, "pre": hexs(pre), "bytes": hexs(out)})
+			return
+		}
+		written = out[len(pre):]
+	} else {
+		written = out[len(pre) : len(out)-1] // without the sentinel
+		tail = rbytes(r, r.Intn(4))
+	}
 	data := append(exact(written), tail...)
 	for _, kind := range kinds {
 		if o.read.zero && len(data) > 0 && false {
@@ -704,7 +724,7 @@ func (g *gen) streamPair(o wop, kinds []string) {
 			continue
 		}
 		ob, evs := runRead(o.read, kind, data, r)
-		g.add(readCaseT(data, evs, o.read, ob), map[string]any{"what": "read-of-write", "data": hexs(data), "op": o.read.term, "reader": kind, "events": evs},
+		g.add(readCaseT(data, evs, o.read, ob), map[string]any{"what": "read-of-" + what, "data": hexs(data), "op": o.read.term, "reader": kind, "events": evs},
 			"rw|"+o.kind+"|"+kind+"|"+ob.res[:min(len(ob.res), 10)], kind != "plain")
 		g.st.Count("read-of-write." + kind)
 		if o.want == "" {
@@ -715,9 +735,9 @@ func (g *gen) streamPair(o wop, kinds []string) {
 		case ob.panicked:
 			g.fail(map[string]any{"sig": "stream-panic", "op": o.read.term, "reader": kind, "data": hexs(data)})
 		case ob.err != nil && !(faulty && classify(ob.err) == "EFault"):
-			g.fail(map[string]any{"sig": "stream-roundtrip", "op": o.read.term, "write": o.term, "reader": kind, "events": evs, "err": fmt.Sprint(ob.err)})
+			g.fail(map[string]any{"sig": "stream-roundtrip", "op": o.read.term, "write": o.term, "at_end_of_stream": atEnd, "written": hexs(written), "reader": kind, "events": evs, "err": fmt.Sprint(ob.err)})
 		case ob.err == nil && (ob.val != o.want || ob.consumed != len(written)):
-			g.fail(map[string]any{"sig": "stream-roundtrip", "op": o.read.term, "write": o.term, "reader": kind, "events": evs, "got": ob.val, "want": o.want, "consumed": ob.consumed})
+			g.fail(map[string]any{"sig": "stream-roundtrip", "op": o.read.term, "write": o.term, "at_end_of_stream": atEnd, "written": hexs(written), "reader": kind, "events": evs, "got": ob.val, "want": o.want, "consumed": ob.consumed})
 		}
 		if ob.err != nil {
 			g.st.Count("read-of-write.fault")
@@ -763,14 +783,64 @@ func (g *gen) directedStream() {
 	}
 }
 
+// directedBoundary: every Write*/Read* pair with boundary sizes 0 and 1, for every length-prefix width, once followed
+// by further writes / data and once as the very last thing of the stream.
+func (g *gen) directedBoundary() {
+	kinds := []string{"plain", "onebyte", "custom"}
+	for _, atEnd := range []bool{true, false} {
+		for _, l := range goodLpts {
+			for n := 0; n <= 1; n++ {
+				data := rbytes(g.r, n)
+				g.streamPairAt(wop{kind: "bytessize", term: joinT("WBytesSize", lptT(l), bytesT(data)), want: joinT("SVBytes", bytesT(data)), read: ropBytesSize(l),
+					run: func(w *stream.ByteBuffer) error { return stream.WriteBytesWithSize(w, data, l) }}, kinds, atEnd)
+				g.streamPairAt(wop{kind: "objectsizeraw", term: joinT("WObjectSize", lptT(l), joinT("WcbRaw", bytesT(data))), want: joinT("SVBytes", bytesT(data)), read: ropObjectSize(l, cbKind{kind: 2, k: n}),
+					run: func(w *stream.ByteBuffer) error {
+						return stream.WriteObjectWithSize(w, data, l, func(b []byte) ([]byte, error) { return b, nil })
+					}}, kinds, atEnd)
+				// collections of n elements of k bytes (k = 0 only for the empty collection: zero-size items are D02d)
+				for k := 1 - n; k <= 2; k++ {
+					var elems [][]byte
+					for i := 0; i < n; i++ {
+						elems = append(elems, rbytes(g.r, k))
+					}
+					g.streamPairAt(wop{kind: "collection", term: joinT("WCollection", lptT(l), listOfBytes(elems), vx.Z(int64(n))), want: joinT("SVList", listOfBytes(elems)), read: ropCollection(l, k),
+						run: func(w *stream.ByteBuffer) error {
+							return stream.WriteCollection(w, l, func() (int, error) {
+								for _, e := range elems {
+									if err := stream.WriteBytes(w, e); err != nil {
+										return 0, err
+									}
+								}
+								return n, nil
+							})
+						}}, kinds, atEnd)
+				}
+			}
+		}
+		for n := 0; n <= 1; n++ {
+			data := rbytes(g.r, n)
+			g.streamPairAt(wop{kind: "bytes", term: joinT("WBytes", bytesT(data)), want: joinT("SVBytes", bytesT(data)), read: ropBytes(int64(n)),
+				run: func(w *stream.ByteBuffer) error { return stream.WriteBytes(w, data) }}, kinds, atEnd)
+		}
+		for t := 0; t < 12; t++ {
+			o := genWopT(g.r, t)
+			g.streamPairAt(o, kinds, atEnd)
+		}
+		v := rnum(g.r, 3)
+		g.streamPairAt(wop{kind: "objectu64", term: joinT("WObject", joinT("WcbU64", zbig(v))), want: joinT("SVNum", zbig(v)), read: ropObject(8, cbKind{kind: 0}),
+			run: func(w *stream.ByteBuffer) error { return stream.WriteObject(w, v.Uint64(), typeutils.Uint64ToBytes) }}, kinds, atEnd)
+	}
+}
+
 func (g *gen) streamPart(n int) {
 	g.directedStream()
+	g.directedBoundary()
 	g.serErrorCases()
 	for i := 0; i < n; i++ {
 		g.roundtripProg()
 	}
 	for i := 0; i < n; i++ {
-		g.streamPair(genWop(g.r), readerKinds)
+		g.streamPairAt(genWop(g.r), readerKinds, i%2 == 1)
 	}
 }
 
